@@ -24,6 +24,7 @@ from .terms import (
     powv, sub, to_poly, same,
 )
 from .simp import mk_app, norm_fn
+from .terms import show
 
 EXC_NAMES = {"ValueError", "TypeError", "KeyError", "IndexError", "AssertionError", "RuntimeError",
              "NotImplementedError", "AttributeError", "ZeroDivisionError", "Exception", "StopIteration"}
@@ -769,6 +770,11 @@ def call_ext(ev, dotted, args, kwargs, node):
             x = as_v(ev, args[0] if args else kwargs.get("x", kwargs.get("q")))
             loc = args[1] if len(args) > 1 else kwargs.get("loc")
             scale = args[2] if len(args) > 2 else kwargs.get("scale")
+            if fn in ("ppf", "isf"):
+                # a quantile taken at 1 - q: the complement is formed in floating point first (q below 1e-16 is lost entirely,
+                # q = 1e-12 keeps 4 digits); the survival-function twin (isf for ppf, ppf for isf) takes q itself
+                if isinstance(x, V) and x.key in getattr(ev, "complement_keys", ()):
+                    ev.event("tail_cancellation", op="%s(1 - q)" % fn, arg=x, node=node, text="norm.%s(%s)" % (fn, show(x, 60)))
             return norm_fn(fn, x, as_v(ev, loc) if loc is not None else None, as_v(ev, scale) if scale is not None else None)
     if dotted.startswith("scipy.stats."):
         return App(dotted.split("scipy.stats.", 1)[1], [as_v(ev, a) for a in args], _kw(ev, kwargs))
